@@ -68,7 +68,7 @@ static void buildBlock(HdrIn &c, const char *conn1, const char *conn2, const cha
     blockPut(c.k, "Keep-Alive: timeout=5\r\nTE: trailers\r\nTrailer: X-T\r\nUpgrade: h2c\r\nProxy-Connection: keep-alive\r\n");
     blockPut(c.k, "Proxy-Authenticate: Basic realm=p\r\n");
     if (!reply) blockPut(c.k, "Proxy-Authorization: " CLIENT_CRED "\r\n");
-    blockPut(c.k, reply ? "Transfer-Encoding: chunked\r\n" : "Transfer-Encoding: gzip, chunked\r\n");
+    blockPut(c.k, "Transfer-Encoding: gzip, chunked\r\n");
     if (conn2) {
         blockPut(c.k, "Connection:");
         c.cs[1] = blockPut(c.k, conn2); c.cn[1] = c.k.n - c.cs[1]; c.nconn = 2;
@@ -192,6 +192,48 @@ static void reply(const char *conn1, const char *conn2, const char *xname)
     WITNESS_POINT();
 }
 
+// Reply direction, whole function: the real clientReplyContext::buildReplyHeader() (harness/C04_reply.cc) on a miss being relayed.
+HttpHeader *c04BuildReplyHeader(const char *block, size_t len, const char *peerLogin, int status, bool proxyKeepalive, bool http11);
+
+static void replyBuild(const char *conn1, const char *conn2, const char *xname)
+{
+    fwdConfig(1);
+    Config.onoff.client_pconns = 1;                        // squid.conf defaults
+    Config.onoff.error_pconns = 1;
+    static HdrIn c;
+    buildBlock(c, conn1, conn2, xname, true);
+    blockPut(c.k, "Date: Thu, 01 Jan 2026 00:00:00 GMT\r\n");   // (without a Date field buildReplyHeader() adds one from the clock)
+    static char buf[FWD_MAXN + 1];
+    for (unsigned i = 0; i < c.k.n; ++i) buf[i] = (char)c.k.b[i];
+    buf[c.k.n] = 0;
+    const unsigned login = (unsigned)vf_concretize(vf_range(0, T(2, 4), "peer_login"));   // none, PASS, PASSTHRU (thorough: PROXYPASS, user:pw)
+    const bool keep = vf_bool("proxyKeepalive");
+    const bool http11 = vf_bool("http11");
+    const HttpHeader *h = c04BuildReplyHeader(buf, c.k.n, Logins[login], 200, keep, http11);
+    vf_assert(h != nullptr, "harness: the origin block is a well-formed header block");
+
+    checkListedAndKept(c, *h);
+    // Proxy-Authenticate comes from the next hop's proxy authentication; it reaches the client only when the next hop is a cache_peer
+    // whose credentials Squid passes through (login=PASS/PASSTHRU), never from an origin server
+    const bool passThrough = login == 1 || login == 2;
+    for (unsigned i = 0; HopByHop[i]; ++i) {
+        if (passThrough && strcmp(HopByHop[i], "Proxy-Authenticate") == 0) continue;
+        vf_assert(countName(*h, HopByHop[i]) == 0, "no standard hop-by-hop field of the origin is relayed to the client");
+    }
+    vf_assert(countName(*h, "Connection") == 1, "exactly one Connection field is sent to the client");
+    const HttpHeaderEntry *conn = findName(*h, "Connection");
+    vf_assert(conn && (valueIs(conn, "keep-alive") || valueIs(conn, "close")), "the Connection field sent is Squid's own, not the origin's");
+    // (the origin's Transfer-Encoding made HttpHeader::parse() drop its Content-Length: the body size is unknown, so Squid chunks the
+    // reply itself when the client speaks HTTP/1.1)
+    const unsigned te = countName(*h, "Transfer-Encoding");
+    vf_observe("te", te);
+    vf_assert(te <= 1 && (te == 0 || valueIs(findName(*h, "Transfer-Encoding"), "chunked")), "Transfer-Encoding reaches the client only as Squid's own single 'chunked'");
+    vf_assert(te == 0 || http11, "an HTTP/1.0 client is not sent a Transfer-Encoding");
+    vf_assert(countName(*h, "Server") == 1, "guard: other fields are relayed");
+    reachIf(passThrough, "peer-auth-passed", "from-origin");
+    WITNESS_POINT();
+}
+
 // ---- families: Connection value template(s) (\x01 = symbolic value byte) and extension field name (\x02 = symbolic tchar)
 #define B1 "\x01"
 #define B2 "\x01\x01"
@@ -224,4 +266,5 @@ extern "C" void c04_req_short(void) { const Family &f = family(0, 2); request(f.
 extern "C" void c04_req_edges(void) { const Family &f = family(2, 2); request(f.conn1, f.conn2, f.xname, false); }
 extern "C" void c04_req_named(void) { const Family &f = family(4, 3); request(f.conn1, f.conn2, f.xname, false); }
 extern "C" void c04_req_flags(void) { const Family &f = Families[7]; request(f.conn1, f.conn2, f.xname, true); }
+extern "C" void c04_rep_build(void) { const Family &f = family(T(2, 0), T(1, 4)); replyBuild(f.conn1, f.conn2, f.xname); }
 extern "C" void c04_rep_lists(void) { const Family &f = family(0, 7); reply(f.conn1, f.conn2, f.xname); }
